@@ -495,7 +495,9 @@ fn run_ranges<W: Write>(cx: &mut Ctx<W>, rng: &mut Rng, count: usize, maxn: usiz
         let (t, pool) = &cx.pools[rng.below(cx.pools.len())];
         // node granularity 1..n+1, directly and through an arc granularity
         for _ in 0..3 {
-            let gran = if rng.chance(2, 3) { Granularity::Nodes(rng.range(1, n + 1)) } else { Granularity::Arcs(rng.range(1, arcs + 2) as u64) };
+            // one request in twelve is extreme ("do not split": the largest representable value)
+            let gran = if rng.chance(1, 12) { if rng.chance(1, 2) { Granularity::Nodes(usize::MAX) } else { Granularity::Arcs(u64::MAX) } }
+                else if rng.chance(2, 3) { Granularity::Nodes(rng.range(1, n + 1)) } else { Granularity::Arcs(rng.range(1, arcs + 2) as u64) };
             let (gs, ng) = match gran {
                 Granularity::Nodes(x) => (format!("nodes:{x}"), gran.node_granularity(n, Some(arcs as u64))),
                 Granularity::Arcs(x) => (format!("arcs:{x}"), gran.node_granularity(n, Some(arcs as u64))),
@@ -513,7 +515,8 @@ fn run_ranges<W: Write>(cx: &mut Ctx<W>, rng: &mut Rng, count: usize, maxn: usiz
         }
         // arc granularity over the DCF
         for _ in 0..3 {
-            let gran = if rng.chance(2, 3) { Granularity::Arcs(rng.range(1, arcs + 2) as u64) } else { Granularity::Nodes(rng.range(1, n + 1)) };
+            let gran = if rng.chance(1, 12) { if rng.chance(1, 2) { Granularity::Nodes(usize::MAX) } else { Granularity::Arcs(u64::MAX) } }
+                else if rng.chance(2, 3) { Granularity::Arcs(rng.range(1, arcs + 2) as u64) } else { Granularity::Nodes(rng.range(1, n + 1)) };
             let (gs, ag) = match gran {
                 Granularity::Nodes(x) => (format!("nodes:{x}"), gran.arc_granularity(n, Some(arcs as u64))),
                 Granularity::Arcs(x) => (format!("arcs:{x}"), gran.arc_granularity(n, Some(arcs as u64))),
